@@ -713,20 +713,47 @@ func stressValidatePattern(c *collector, n, rounds int, seed uint64) {
 	}
 }
 
+// samplers: the branches that actually DRAW a random number (fixed sampler strictly between
+// 0 and 100 percent, adaptive sampler after it has throttled) as well as the constant ones.
+// Each decision must be the function of the sampler's configuration and of the traffic, so
+// over many draws the observed rate of a fixed sampler is its percentage.
 func stressSamplers(c *collector, n, rounds int, seed uint64) {
+	percents := []int{0, 10, 50, 90, 100}
+	var yes, total [5]int64
 	for r := 0; r < rounds; r++ {
-		ad := middleware.NewAdaptiveSampler(5+r%7, 3+r%5)
-		always, never, half := middleware.NewFixedSampler(100), middleware.NewFixedSampler(0), middleware.NewFixedSampler(50)
+		// tiny budget and window: throttles after the first window, then draws on every call
+		ad := middleware.NewAdaptiveSampler(1+r%3, 2+r%5)
+		fixed := make([]middleware.Sampler, len(percents))
+		for i, p := range percents {
+			fixed[i] = middleware.NewFixedSampler(p)
+		}
 		barrier(n, func(g int) {
-			for k := 0; k < 60; k++ {
+			var y, t [5]int64
+			for k := 0; k < 120; k++ {
 				_ = ad.Sample()
-				_ = half.Sample()
-				if !always.Sample() || never.Sample() {
-					c.fail("fixed-sampler-wrong", "fixed sampler 100% returned false or 0% returned true", g)
+				for i := range fixed {
+					t[i]++
+					if fixed[i].Sample() {
+						y[i]++
+					}
 				}
 				c.eval(1)
 			}
+			for i := range y {
+				atomic.AddInt64(&yes[i], y[i])
+				atomic.AddInt64(&total[i], t[i])
+			}
 		})
+	}
+	for i, p := range percents {
+		if total[i] == 0 {
+			continue
+		}
+		rate := float64(yes[i]) / float64(total[i])
+		want := float64(p) / 100
+		if (p == 0 && yes[i] != 0) || (p == 100 && yes[i] != total[i]) || (total[i] >= 5000 && (rate < want-0.06 || rate > want+0.06)) {
+			c.fail("fixed-sampler-wrong-rate", fmt.Sprintf("fixed sampler %d%%: %d of %d concurrent decisions were positive (%.3f)", p, yes[i], total[i], rate), p)
+		}
 	}
 }
 
